@@ -492,6 +492,44 @@ impl World {
                     use_compat_address: false,
                 })
             }
+            // pairs,<add|del>,<P1+P2+…>
+            "pairs" => {
+                let set: indexmap::IndexSet<astria_core::oracles::price_feed::types::v2::CurrencyPair> =
+                    f[2].split('+').map(|p| p.parse().unwrap()).collect();
+                Action::CurrencyPairsChange(if f[1] == "add" {
+                    action::CurrencyPairsChange::Addition(set)
+                } else {
+                    action::CurrencyPairsChange::Removal(set)
+                })
+            }
+            // markets,<create|remove|update>,<PAIR:decimals+…>
+            "markets" => {
+                use astria_core::oracles::price_feed::market_map::v2::{
+                    Market,
+                    Ticker,
+                };
+                let markets: Vec<Market> = f[2]
+                    .split('+')
+                    .map(|m| {
+                        let (pair, dec) = m.split_once(':').unwrap();
+                        Market {
+                            ticker: Ticker {
+                                currency_pair: pair.parse().unwrap(),
+                                decimals: dec.parse().unwrap(),
+                                min_provider_count: 1,
+                                enabled: true,
+                                metadata_json: String::new(),
+                            },
+                            provider_configs: vec![],
+                        }
+                    })
+                    .collect();
+                Action::MarketsChange(match f[1] {
+                    "create" => action::MarketsChange::Creation(markets),
+                    "remove" => action::MarketsChange::Removal(markets),
+                    _ => action::MarketsChange::Update(markets),
+                })
+            }
             k => panic!("unknown action kind {k}"),
         }
     }
@@ -981,6 +1019,34 @@ impl World {
             .collect();
         vupd.sort();
         parts.push(format!("vals={} cnt={} vupd={}", join(&vals), cnt, join(&vupd)));
+        // oracle: currency pairs and markets (privileged state of the sudo address)
+        {
+            use crate::oracles::price_feed::{
+                market_map::state_ext::StateReadExt as _,
+                oracle::state_ext::StateReadExt as _,
+            };
+            let mut pairs: Vec<String> = Vec::new();
+            let mut stream = std::pin::pin!(state.currency_pairs_with_ids());
+            while let Some(item) = stream.try_next().await.unwrap() {
+                pairs.push(format!("{}:{}", item.currency_pair, item.id));
+            }
+            pairs.sort();
+            let npairs = state.get_num_currency_pairs().await.unwrap();
+            let nextid = state.get_next_currency_pair_id().await.unwrap();
+            let markets = match state.get_market_map().await.unwrap() {
+                None => "none".to_string(),
+                Some(mm) => {
+                    let mut v: Vec<String> = mm
+                        .markets
+                        .iter()
+                        .map(|(k, m)| format!("{k}:{}", m.ticker.decimals))
+                        .collect();
+                    v.sort();
+                    join(&v)
+                }
+            };
+            parts.push(format!("pairs={} npairs={npairs} nextid={nextid} markets={markets}", join(&pairs)));
+        }
         // ephemeral: block fees, cached deposits
         let mut bfees: Vec<String> = state
             .get_block_fees()
@@ -1214,7 +1280,26 @@ impl Gen {
                 };
                 (sudo, 1, a)
             }
-            2 => match self.rng.below(10) {
+            2 => match self.rng.below(14) {
+                10 | 11 => {
+                    let add = self.rng.chance(55);
+                    let pool = ["AAA/USD", "BBB/USD", "CCC/USD", "BTC/USD"];
+                    let k = self.rng.range(1, 2) as usize;
+                    let mut names: Vec<&str> = Vec::new();
+                    for _ in 0..k {
+                        let n = *self.rng.pick(&pool);
+                        if !names.contains(&n) {
+                            names.push(n);
+                        }
+                    }
+                    (sudo, 2, format!("pairs,{},{}", if add { "add" } else { "del" }, names.join("+")))
+                }
+                12 | 13 => {
+                    let kind = *self.rng.pick(&["create", "remove", "update"]);
+                    let pool = ["AAA/USD", "BBB/USD", "BTC/USD", "ETH/USD"];
+                    let n = *self.rng.pick(&pool);
+                    (sudo, 2, format!("markets,{kind},{n}:{}", self.rng.range(2, 9)))
+                }
                 0..=2 => {
                     let add = self.rng.chance(50);
                     let pool = ["i", "a0", "a2", "a3"];
